@@ -22,6 +22,10 @@
 (*             NOT a plain parameter while the assignment is in force; a   *)
 (*             scanned value replaces the assignment by a plain value)     *)
 (*   derived : 2*kin        (a derived parameter)                          *)
+(* The scan may be given base initial values y0: row values take           *)
+(* precedence over y0, y0 over the model's own initial values ("a fresh    *)
+(* copy of the model with exactly that row's parameter and initial         *)
+(* values": Base = Original with y0, Expected(i) = WithRow(Base, i)).      *)
 (* A trajectory is determined by (x0, k, effective inflow) at Run time,    *)
 (* fluxes by (k, effective inflow) at Evaluate time.                       *)
 (*                                                                         *)
@@ -52,6 +56,8 @@ CONSTANTS
                     \* "q" (the assignment-defined parameter itself; only with variant "ia")
     Kinds,          \* scan entry points (only carried into the emitted configuration)
     FailModes,      \* ways a row may fail (carried into the configuration)
+    Y0s,            \* admissible y0= arguments: 0 = none, v > 0 = {x: v} (base initial values given to the scan)
+    Y0Again,        \* TRUE: implementation-shaped wrong instance that applies y0 once more AFTER the row
     MaxDur,         \* durations 1..MaxDur (Timed)
     SharedInSeq,    \* TRUE: implementation-shaped sequential mode
     Timed,          \* TRUE: durations + clock; FALSE: rows finish in any order
@@ -97,13 +103,16 @@ WithPlain(c, p) == [c EXCEPT !.k = p.k, !.kin = p.kin, !.q = IF p.q = Unassigned
 Traj(c) == [x0 |-> c.x0, k |-> c.k, kineff |-> KinEff(cfg.variant, c.kin, c.x0, c.q)]
 Flux(c) == [k |-> c.k, kineff |-> KinEff(cfg.variant, c.kin, c.x0, c.q)]
 
-\* what a fresh copy of the original model with exactly row i applied gives
+\* the model the rows start from: y0 (if given) over the model's own initial values
+Base == IF cfg.y0 > 0 THEN [Original EXCEPT !.x0 = cfg.y0] ELSE Original
+
+\* what a fresh copy of the model (with y0) with exactly row i applied gives
 Expected(i) ==
     IF i = cfg.fail THEN [t |-> "nan"]
-    ELSE LET c == WithRow(Original, i) IN [t |-> "val", traj |-> Traj(c), fl |-> Flux(c)]
+    ELSE LET c == WithRow(Base, i) IN [t |-> "val", traj |-> Traj(c), fl |-> Flux(c)]
 
 NoTask == [st |-> "todo", w |-> 0, ref |-> 0, pars |-> PlainPars(Original), traj |-> Traj(Original), rem |-> 0]
-Unset == [kind |-> "", n |-> 0, w |-> 0, mode |-> "", variant |-> "", cols |-> {}, fail |-> 0 - 1, failmode |-> ""]
+Unset == [kind |-> "", n |-> 0, w |-> 0, mode |-> "", variant |-> "", cols |-> {}, fail |-> 0 - 1, failmode |-> "", y0 |-> 0 - 1]
 Rows == 1..cfg.n
 
 Init ==
@@ -129,7 +138,8 @@ Setup ==
        \/ cfg.n # 0 /\ cfg.variant = "" /\ \E v \in Variants : cfg' = [cfg EXCEPT !.variant = v] /\ UNCHANGED <<phase, dur>>
        \/ cfg.variant # "" /\ cfg.cols = {} /\ \E v \in ColSets :
                 ("q" \in v => cfg.variant = "ia") /\ cfg' = [cfg EXCEPT !.cols = v] /\ UNCHANGED <<phase, dur>>
-       \/ cfg.cols # {} /\ cfg.fail = 0 - 1 /\ \E v \in {0, 0 - 2} : cfg' = [cfg EXCEPT !.fail = v] /\ UNCHANGED <<phase, dur>>
+       \/ cfg.cols # {} /\ cfg.y0 < 0 /\ \E v \in Y0s : cfg' = [cfg EXCEPT !.y0 = v] /\ UNCHANGED <<phase, dur>>
+       \/ cfg.y0 >= 0 /\ cfg.fail = 0 - 1 /\ \E v \in {0, 0 - 2} : cfg' = [cfg EXCEPT !.fail = v] /\ UNCHANGED <<phase, dur>>
        \/ cfg.fail = 0 - 2 /\ \E v \in 1..cfg.n : cfg' = [cfg EXCEPT !.fail = v] /\ UNCHANGED <<phase, dur>>
        \/ cfg.fail > 0 /\ cfg.failmode = "" /\ \E v \in FailModes :
                 (v = "nosteady" => IsSteady(cfg.kind)) /\ cfg' = [cfg EXCEPT !.failmode = v] /\ UNCHANGED <<phase, dur>>
@@ -140,7 +150,7 @@ Setup ==
 
 Start ==
     /\ phase = "run" /\ obj = <<>>
-    /\ obj' = [i \in 0..cfg.n |-> Original]
+    /\ obj' = [i \in 0..cfg.n |-> Base]          \* the scan puts y0 into the caller's model first
     /\ task' = [i \in Rows |-> NoTask]
     /\ eval' = [i \in Rows |-> [t |-> "none"]]
     /\ ftick' = [i \in Rows |-> 0]
@@ -168,7 +178,8 @@ Take(w, i) ==
 
 ApplyRow(i) ==
     /\ Started /\ task[i].st = "taken"
-    /\ obj' = [obj EXCEPT ![task[i].ref] = WithRow(@, i)]
+    /\ obj' = [obj EXCEPT ![task[i].ref] =
+                    IF Y0Again /\ cfg.y0 > 0 THEN [WithRow(@, i) EXCEPT !.x0 = cfg.y0] ELSE WithRow(@, i)]
     /\ task' = [task EXCEPT ![i].st = "applied"]
     /\ UNCHANGED <<cfg, phase, dur, out, eval, clock, forder, ftick, eorder>>
 
@@ -231,7 +242,7 @@ RowIndependent == phase \in {"collected", "done"} => \A i \in Rows : eval[i].t #
 Aligned == phase \in {"collected", "done"} => out = [i \in Rows |-> i]
 FailedIsNaN == phase = "done" => \A i \in Rows : (eval[i].t = "nan") <=> (i = cfg.fail)
 Bounded == Started => Cardinality(InProgress) <= cfg.w /\ (cfg.mode = "seq" => Cardinality(InProgress) <= 1)
-CallerUntouched == (Started /\ ~(cfg.mode = "seq" /\ SharedInSeq)) => obj[0] = Original
+CallerUntouched == (Started /\ ~(cfg.mode = "seq" /\ SharedInSeq)) => obj[0] = Base
 
 Emit == (EmitOn /\ phase = "done") =>
     PrintT("@J@" \o ToJson([cfg |-> cfg, dur |-> dur, forder |-> forder, ftick |-> ftick, eorder |-> eorder,
